@@ -215,17 +215,50 @@ def conducts(b):
     return bool(y)
 
 
-def port_impedance(nl, a, b_):
-    """Exact driving-point impedance between nodes a and b: deactivate sources, inject
-    1 A from b into a, read phi(a)-phi(b).  Parts of the network that are connected to
-    the port only through non-conducting (open) branches carry no current and are
-    dropped first.  Returns GQ, "inf" if no conducting path joins a and b, or None if
-    the conducting part is itself singular (not in the domain)."""
+def contract_shorts(branches, protect=()):
+    """Merge nodes joined by zero-impedance branches (of a deactivated network); returns
+    (remaining branches renamed, node -> representative).  Self-loops are dropped."""
+    parent = {}
+
+    def find(x):
+        parent.setdefault(x, x)
+        while parent[x] != x:
+            parent[x] = parent[parent[x]]
+            x = parent[x]
+        return x
+    for b in branches:
+        find(b[0])
+        find(b[1])
+        z, y = immittance(b)
+        if y is None and b[2] in ("short", "Z", "R", "V", "LV"):
+            ra, rb = find(b[0]), find(b[1])
+            if ra != rb:
+                parent[ra] = rb
+    out = []
+    for b in branches:
+        z, y = immittance(b)
+        if y is None:
+            continue
+        a, c_ = find(b[0]), find(b[1])
+        if a != c_:
+            out.append([a, c_, b[2], b[3], b[4]])
+    return out, {n: find(n) for n in list(parent)}
+
+
+def port_impedance(nl, a, b_, solver=None):
+    """Exact driving-point impedance between nodes a and b: deactivate sources, contract
+    zero-impedance branches, drop parts reachable only through non-conducting branches,
+    inject 1 A from b into a, read phi(a)-phi(b).  Returns GQ (or what `solver` yields),
+    "inf" if no conducting path joins a and b, or None if the conducting part is singular."""
     if a == b_:
         return ex.ZERO
     d = deactivated(nl)
     cond = [b for b in d["branches"] if conducts(b)]
-    comp = {a}
+    cond, rep = contract_shorts(cond)
+    a2, b2 = rep.get(a, a), rep.get(b_, b_)
+    if a2 == b2:
+        return ex.ZERO
+    comp = {a2}
     grew = True
     while grew:
         grew = False
@@ -234,11 +267,13 @@ def port_impedance(nl, a, b_):
                 comp.add(b[0])
                 comp.add(b[1])
                 grew = True
-    if b_ not in comp:
+    if b2 not in comp:
         return "inf"
     keep = [b for b in cond if b[0] in comp and b[1] in comp]
-    d = {"ref": b_, "branches": keep + [[b_, a, "I", "__test__", [1]]]}
+    d = {"ref": b2, "branches": keep + [[b2, a2, "I", "__test__", [1]]]}
+    if solver is not None:
+        return solver(d, a2, b2)
     s = solve(d)
     if s is None:
         return None
-    return s["phi"][a] - s["phi"][b_]
+    return s["phi"][a2] - s["phi"][b2]
